@@ -502,6 +502,19 @@ func (c *cmp) static(path string, wv, gv reflect.Value, strictDyn bool) error {
 				// ... and a null key may come back as the key ""
 				g = gv.MapIndex(reflect.ValueOf(""))
 			}
+			if !g.IsValid() && isPointerKey(it.Key()) {
+				// a pointer used as a key (an object as a map key): the two maps hold different
+				// pointers; match the key by content
+				for _, gk := range gv.MapKeys() {
+					if isPointerKey(gk) {
+						sub := &cmp{nameMap: c.nameMap, w2g: map[unsafe.Pointer]unsafe.Pointer{}, g2w: map[unsafe.Pointer]unsafe.Pointer{}}
+						if sub.static(path, it.Key(), gk, strictDyn) == nil {
+							g = gv.MapIndex(gk)
+							break
+						}
+					}
+				}
+			}
 			kp := fmt.Sprintf("%s[%v]", path, clip(fmt.Sprint(it.Key().Interface())))
 			if !g.IsValid() {
 				return fail(kp, "key missing in result")
@@ -581,3 +594,10 @@ func (c *cmp) enter(a, b uintptr, n int) bool {
 }
 
 func (c *cmp) leave(a, b uintptr, n int) {} // the pair stays marked: compared (or being compared) once
+
+func isPointerKey(k reflect.Value) bool {
+	for k.Kind() == reflect.Interface && !k.IsNil() {
+		k = k.Elem()
+	}
+	return k.Kind() == reflect.Ptr
+}
